@@ -38,7 +38,9 @@ def make_spec(rng):
     # spellings of the structure document that the JSON schema accepts besides the canonical one
     sh["structure_dialect"] = rng.sample(["legacy_type_key", "legacy_viral_role", "referenced_structures", "descriptions"], rng.choice([0, 0, 1, 1, 2, 3]))
     if rng.random() < 0.3:
-        spec["kwargs"]["scalar_values"] = {"sc_x": 3, "sc_y": None}
+        # natively typed, textual (as a CLI / JSON config would give them), and mixed
+        spec["kwargs"]["scalar_values"] = rng.choice([{"sc_x": 3, "sc_y": None}, {"sc_x": "3", "sc_y": "2.5"}, {"sc_x": 3.0, "sc_y": "7"},
+                                                      {"sc_y": 1.5, "sc_x": "12"}, {"sc_x": True, "sc_y": "abc"}])
     if rng.random() < 0.25:
         spec["kwargs"]["value_domains"] = copy.deepcopy(VD) if rng.random() < 0.6 else [copy.deepcopy(VD)]
         spec["script"] += 'VD_r <- DS_1[calc B_1 := Id_2 in VD_1];\n' if any(c["name"] == "Id_2" for c in w["structures"]["datasets"][0]["DataStructure"]) else ""
@@ -244,7 +246,14 @@ def _child(specs, seed):
             rng = random.Random(seed * 1000 + n)
             # 1. fault-free
             ops.set_env({"env": {}}, sb)
-            fn, kw = build_call(spec, sb, n)
+            try:
+                fn, kw = build_call(spec, sb, n)
+            except Exception as e:  # noqa: BLE001
+                # the *caller-side* objects of this spec cannot be built (e.g. pysdmx refuses to wrap a dirty
+                # DataFrame in a PandasDataset): there is no call to judge
+                out.append({"api": spec["api"], "fn": None, "K": 0, "outcome": ("unbuildable", type(e).__name__), "fault_free_diff": None,
+                            "faulted": [], "peer": None})
+                continue
             before = snapshot.snap(kw)
             SIM.reset(seed=n)
             SIM.begin_op(0)
@@ -317,6 +326,9 @@ def run(ctx):
     nontrivial = set()
     for _t, res in done:
         for r in res:
+            if r["status"] == "unbuildable":
+                status["unbuildable"] = status.get("unbuildable", 0) + 1
+                continue
             n_ff += 1
             n_faulted += r["n_faulted"]
             by_api[r["api"]] = by_api.get(r["api"], 0) + 1
